@@ -37,6 +37,14 @@ func (x *Exec) valueInstr(st *State, b *ssa.BasicBlock, i int, ins ssa.Value, k 
 			x.unsupp(st, "field address of untracked pointer (%s.%s) in %s at %s", ins.X.Name(), fname, funcKey(ins.Parent()), x.pos(ins.Pos()))
 			return mkU("nil"), false
 		}
+		if strings.HasPrefix(base.Loc, "elem:") {
+			// field of a struct stored in a heap array: elem:<arr>::<idx>##<field path>
+			sep := "##"
+			if strings.Contains(base.Loc, "##") {
+				sep = "."
+			}
+			return SVal{K: KLoc, Loc: base.Loc + sep + fname, GoT: ins.Type(), Elems: []SVal{{GoT: pt.Elem()}}}, false
+		}
 		return SVal{K: KLoc, Loc: base.Loc + "." + fname, GoT: ins.Type()}, false
 	case *ssa.Field:
 		base := x.val(st, ins.X)
@@ -345,13 +353,45 @@ func (x *Exec) unop(st *State, ins *ssa.UnOp) SVal {
 			return mkU("nil")
 		}
 		if strings.HasPrefix(v.Loc, "elem:") {
-			arr, idx := splitElem(v.Loc)
+			loc, fields := v.Loc, ""
+			if i := strings.Index(loc, "##"); i >= 0 {
+				loc, fields = v.Loc[:i], v.Loc[i+2:]
+			}
+			arr, idx := splitElem(loc)
 			cur, ok := st.Heap[arr]
 			if !ok {
 				x.unsupp(st, "load from unknown array %s", arr)
 				return mkU("nil")
 			}
-			return x.unbox(st, "(select "+cur.T+" "+idx+")", ins.Type())
+			if fields == "" {
+				return x.unbox(st, "(select "+cur.T+" "+idx+")", ins.Type())
+			}
+			// element struct type is remembered on the address value
+			if len(v.Elems) == 0 || v.Elems[0].GoT == nil {
+				x.unsupp(st, "field of array element with unknown type")
+				return mkU("nil")
+			}
+			ev := x.unbox(st, "(select "+cur.T+" "+idx+")", v.Elems[0].GoT)
+			for _, f := range strings.Split(fields, ".") {
+				stt, ok := isStruct(ev.GoT)
+				if !ok || ev.K != KStruct {
+					x.unsupp(st, "field %s of non-struct array element", f)
+					return mkU("nil")
+				}
+				found := false
+				for j := 0; j < stt.NumFields(); j++ {
+					if stt.Field(j).Name() == f {
+						ev = ev.Elems[j]
+						found = true
+						break
+					}
+				}
+				if !found {
+					x.unsupp(st, "no field %s", f)
+					return mkU("nil")
+				}
+			}
+			return ev
 		}
 		if strings.HasPrefix(v.Loc, "global:") {
 			r := x.load(st, v.Loc, ins.Type(), ins.Pos())
